@@ -53,6 +53,26 @@ def _case(draw):
             'variant': 'kaisa'}
 
 
+GPT_LEAVES = ['col', 'col', 'row', 'row', 'col_nobias', 'row_nobias', 'linear', 'relu', 'ln', 'subcol', 'embedding']
+
+
+@st.composite
+def _gpt_case(draw):
+    def node(depth):
+        leaf = st.fixed_dictionaries({'t': st.sampled_from(GPT_LEAVES), 'freeze': st.sampled_from(FREEZE),
+                                      'share': st.sampled_from([None, None, None, 0])})
+        if depth == 0:
+            return leaf
+        child = st.deferred(lambda: node(depth - 1))
+        cont = st.fixed_dictionaries({'t': st.sampled_from(CONTAINERS), 'names': st.lists(st.sampled_from(['mlp', 'attention', 'dense_h_to_4h', 'dense_4h_to_h', 'query_key_value', 'dense', 'final']), max_size=4, unique=True),
+                                      'children': st.lists(child, min_size=1, max_size=5)})
+        return st.one_of(leaf, cont, cont)
+    tree = draw(st.fixed_dictionaries({'t': st.just('custom'), 'names': st.just([]), 'children': st.lists(node(draw(st.sampled_from([0, 1, 2]))), min_size=1, max_size=5)}))
+    pat = st.sampled_from(['RowParallelLinear', 'ColumnParallelLinear', 'rowparallellinear', 'columnparallel', 'Parallel', 'parallel', 'Linear$', 'linear$',
+                           '^m0$', 'mlp', 'dense', r'\.dense_h_to_4h$', 'attention', r'^m\d+\.m0', 'nomatch', 'Row|embed', '^Column', 'ROWPARALLEL', r'\d'])
+    return {'variant': 'gpt', 'tree': tree, 'skip_layers': draw(st.lists(pat, max_size=3))}
+
+
 def build(tree):
     """Build the nn.Module tree described by the JSON spec."""
     import torch
@@ -78,11 +98,28 @@ def build(tree):
     class Custom(nn.Module):
         pass
 
+    class ColumnParallelLinear(nn.Module):
+        def __init__(self, bias=True):
+            super().__init__()
+            self.weight = nn.Parameter(torch.zeros(4, 3))
+            self.bias = nn.Parameter(torch.zeros(4)) if bias else None
+
+    class RowParallelLinear(nn.Module):
+        def __init__(self, bias=True):
+            super().__init__()
+            self.weight = nn.Parameter(torch.zeros(3, 4))
+            self.bias = nn.Parameter(torch.zeros(3)) if bias else None
+
+    class MyColumnParallelLinear(ColumnParallelLinear):      # a subclass has a different class name: not eligible
+        pass
+
     shared: dict = {}
 
     def leaf(spec):
         t = spec['t']
         m = {
+            'col': ColumnParallelLinear, 'row': RowParallelLinear, 'col_nobias': lambda: ColumnParallelLinear(False),
+            'row_nobias': lambda: RowParallelLinear(False), 'subcol': MyColumnParallelLinear,
             'linear': lambda: nn.Linear(3, 2), 'linear_nobias': lambda: nn.Linear(3, 2, bias=False),
             'conv': lambda: nn.Conv2d(2, 3, 2), 'conv_nobias': lambda: nn.Conv2d(2, 3, 2, bias=False),
             'sublinear': lambda: MyLinear(3, 2), 'subconv': lambda: MyConv(2, 3, 2), 'relu': nn.ReLU, 'tanh': nn.Tanh,
@@ -159,18 +196,83 @@ class C16(Prop):
             'parameters trainable, re.search of every pattern misses the qualified name and the class name. Compared with the names in '
             'state_dict()["layers"], the hook counts on every module (exactly one forward-pre and one backward hook on registered modules, '
             'none elsewhere) and requires_grad/training flags left untouched. Non-trivial: >= 1 eligible and >= 1 ineligible Linear/Conv2d '
-            'leaf whose ineligibility comes from a name pattern, a class pattern, a partial freeze, or a shared instance occurs.')
+            'leaf whose ineligibility comes from a name pattern, a class pattern, a partial freeze, or a shared instance occurs. GPT-NeoX variant (one third of the cases): trees of Column/RowParallelLinear doubles, a subclass, plain Linear and other leaves passed to kfac.gpt_neox.preconditioner.register_modules; eligible iff class name is Column/RowParallelLinear, all parameters trainable, no pattern hits; patterns that match the class name only case-insensitively may go either way (the docstring promises case-insensitivity, the statement a regular-expression search); parallelism kind must be output/input respectively.')
     assumptions = ['registration is observed through state_dict()["layers"] names and torch hook dictionaries on the modules',
                    'GPT-NeoX variant (class-name eligibility) is checked with DeepSpeed/Megatron doubles']
     examples = {'quick': 500, 'thorough': 4000}
     shards = {'quick': 2, 'thorough': 16}
-    required_labels = {'quick': ['nontrivial=True', 'why_name=True', 'why_class=True', 'why_freeze=True', 'shared=True'],
+    required_labels = {'quick': ['nontrivial=True', 'why_name=True', 'why_class=True', 'why_freeze=True', 'shared=True', 'variant=gpt', 'variant=kaisa'],
                        'thorough': ['nontrivial=True', 'why_name=True', 'why_class=True', 'why_freeze=True', 'shared=True']}
 
     def strategy(self, tier):
-        return _case()
+        return st.one_of(_case(), _case(), _gpt_case())
 
     def run_case(self, case):
+        if case.get('variant') == 'gpt':
+            return self._gpt(case)
+        return self._kaisa(case)
+
+    def _gpt(self, case):
+        from vkit import ds_doubles
+        ds_doubles.install()
+        from kfac.distributed import TorchDistributedCommunicator
+        from kfac.gpt_neox.preconditioner import register_modules
+        root = build(case['tree'])
+        pats = case['skip_layers']
+        walk = oracle_walk(root)
+        must, may = {}, {}
+        n_inel = 0
+        reasons = set()
+        for name, m in walk:
+            if any(c is not None for c in m._modules.values()):
+                continue
+            cls = type(m).__name__
+            exact = cls.lower() in ('columnparallellinear', 'rowparallellinear')
+            if not exact and not cls.lower().endswith(('columnparallellinear', 'rowparallellinear')):
+                continue
+            trainable = all(p.requires_grad for p in m.parameters())
+            hit_name = any(re.search(p, name) for p in pats)
+            hit_cls = any(re.search(p, cls) for p in pats)                      # the statement: regular-expression search
+            hit_cls_ci = any(re.search(p, cls, re.IGNORECASE) or re.search(p, cls.lower()) for p in pats)   # documented "case-insensitive"
+            if not exact:
+                if trainable and not hit_name and not hit_cls:
+                    may[name] = m      # a subclass (different class name): the statement does not say; either outcome is acceptable
+                continue
+            if trainable and not hit_name and not hit_cls_ci:
+                must[name] = m
+            elif trainable and not hit_name and not hit_cls:
+                may[name] = m          # matches only case-insensitively: either outcome is acceptable
+            else:
+                n_inel += 1
+                reasons.add('name' if hit_name else 'class' if hit_cls else 'freeze')
+        try:
+            with warnings.catch_warnings():
+                warnings.simplefilter('ignore')
+                layers = register_modules(root, model_parallel_group=None, skip_layers=list(pats), tdc=TorchDistributedCommunicator())
+        except Exception as e:
+            return violation(f'GPT-NeoX register_modules raised {type(e).__name__}: {e} for skip={pats}', 'construction')
+        got = {n: m for m, (n, _) in layers.items()}
+        labels = {'variant': 'gpt', 'npatterns': len(pats), 'n_registered': min(len(must), 6)}
+        if len(got) != len(layers):
+            return violation('two modules registered under one name', 'registered-set', labels=labels)
+        missing = [n for n in must if n not in got]
+        extra = [n for n in got if n not in must and n not in may]
+        if missing or extra:
+            return violation(f'GPT-NeoX registration: missing {missing}, unexpected {extra}; skip_layers={pats}; '
+                             f'modules={[(n, type(m).__name__) for n, m in walk]}', 'gpt-registered-set', labels=labels)
+        for n, m in got.items():
+            exp = must.get(n, may.get(n))
+            if exp is not m:
+                return violation(f'module registered as {n!r} is not the module at that path', 'name-module-pairing', labels=labels)
+            par = layers[m][1].parallelism
+            want = 'output' if type(m).__name__.lower().endswith('columnparallellinear') else 'input'
+            if par != want:
+                return violation(f'{n}: registered with parallelism {par!r}, expected {want!r}', 'gpt-parallelism', labels=labels)
+        nt = bool(must) and n_inel > 0
+        labels.update({'nontrivial': nt, 'why_name': 'name' in reasons, 'why_class': 'class' in reasons, 'why_freeze': 'freeze' in reasons})
+        return passed(nt, labels)
+
+    def _kaisa(self, case):
         import torch
         from kfac.preconditioner import KFACPreconditioner
 
@@ -237,7 +339,7 @@ class C16(Prop):
             if flags_before[id(m)] != (m.training, [p.requires_grad for p in m.parameters(recurse=False)]):
                 return violation(f'module {name!r}: training / requires_grad flags changed by registration', 'touched')
         nt = bool(expected) and n_inel > 0 and bool(reasons & {'name', 'class', 'freeze'} or shared)
-        labels = {'nontrivial': nt, 'shared': shared, 'n_registered': min(len(expected), 6), 'npatterns': len(pats)}
+        labels = {'variant': 'kaisa', 'nontrivial': nt, 'shared': shared, 'n_registered': min(len(expected), 6), 'npatterns': len(pats)}
         for w in ('name', 'class', 'freeze'):
             labels['why_' + w] = w in reasons
         return passed(nt, labels)
